@@ -1,0 +1,61 @@
+//go:build verif
+
+package pilosa
+
+import "time"
+
+// Exported access to the time-view functions of time.go and field.go for the
+// /verif harness (properties C18, C19). No behaviour, only access: every
+// function forwards to the unexported function named in its comment.
+
+// VerifTimeViewStandard is the name of the standard view (viewStandard).
+const VerifTimeViewStandard = viewStandard
+
+// VerifTimeViewsByTime forwards to viewsByTime.
+func VerifTimeViewsByTime(name string, t time.Time, q TimeQuantum) []string {
+	return viewsByTime(name, t, q)
+}
+
+// VerifTimeViewsByTimeRange forwards to viewsByTimeRange.
+func VerifTimeViewsByTimeRange(name string, start, end time.Time, q TimeQuantum) []string {
+	return viewsByTimeRange(name, start, end, q)
+}
+
+// VerifTimeOfView forwards to timeOfView.
+func VerifTimeOfView(v string, adj bool) (time.Time, error) { return timeOfView(v, adj) }
+
+// VerifTimeMinMaxViews forwards to minMaxViews (which sorts its argument).
+func VerifTimeMinMaxViews(views []string, q TimeQuantum) (min string, max string) {
+	return minMaxViews(views, q)
+}
+
+// VerifTimeViewNames returns the names of the field's views (Field.views).
+func (f *Field) VerifTimeViewNames() []string {
+	var a []string
+	for _, v := range f.views() {
+		a = append(a, v.name)
+	}
+	return a
+}
+
+// VerifTimeSortedViewNames returns the names of the field's time views in the
+// order Field.ClearBit visits them (Field.allTimeViewsSortedByQuantum); nil
+// when the field has no time view.
+func (f *Field) VerifTimeSortedViewNames() []string {
+	f.mu.RLock()
+	defer f.mu.RUnlock()
+	n := 0
+	for name := range f.viewMap {
+		if len(name) > len(viewStandard)+1 && name[:len(viewStandard)+1] == viewStandard+"_" {
+			n++
+		}
+	}
+	if n == 0 {
+		return nil
+	}
+	var a []string
+	for _, v := range f.allTimeViewsSortedByQuantum() {
+		a = append(a, v.name)
+	}
+	return a
+}
